@@ -20,17 +20,33 @@ class Unknown(Exception):
 
 
 class Domain:
-    def __init__(self, facts, outer_suffix, inner_suffix=None, wrapper=None, outer_vars=None, level_fn=None):
+    def __init__(self, facts, outer_suffix, inner_suffix=None, wrapper=None, outer_vars=None, level_fn=None, split=None):
         """outer_suffix e.g. 'model::AxisSpecifier', inner_suffix 'model::AxisName', wrapper = outer variant carrying inner;
-        outer_vars: the variants of an outer enum that is not a workspace type (Option: None / Some)"""
+        outer_vars: the variants of an outer enum that is not a workspace type (Option: None / Some);
+        split: {variant with a string payload: [literals]} - the variant is split into `V:<lit>` per literal and `V:*` for every
+        other string, refined by comparisons of the payload with string literals (`Abbreviated("@")` vs the rest)"""
         self.facts = facts
         self.outer, self.inner, self.wrapper = outer_suffix, inner_suffix, wrapper
         self.level_fn = level_fn
+        self.split = dict(split or {})
         self.outer_vars = list(outer_vars) if outer_vars else self._variants(outer_suffix)
         self.inner_vars = self._variants(inner_suffix) if inner_suffix else []
         if not self.outer_vars or (inner_suffix and not self.inner_vars):
             raise Unknown("enum %s / %s not found among the ADTs" % (outer_suffix, inner_suffix))
-        self.universe = frozenset([v for v in self.outer_vars if v != wrapper] + list(self.inner_vars))
+        outer_vals = []
+        for v in self.outer_vars:
+            if v == wrapper:
+                continue
+            if v in self.split:
+                outer_vals += ["%s:%s" % (v, lit) for lit in self.split[v]] + [v + ":*"]
+            else:
+                outer_vals.append(v)
+        self.universe = frozenset(outer_vals + list(self.inner_vars))
+
+    def values_of(self, variant):
+        if variant in self.split:
+            return {"%s:%s" % (variant, lit) for lit in self.split[variant]} | {variant + ":*"}
+        return {variant}
 
     def _variants(self, suffix):
         for a in self.facts.adts.values() if isinstance(self.facts.adts, dict) else self.facts.adts:
@@ -77,6 +93,8 @@ class Domain:
                 return self.pat_set(subs[0], "inner")
             if v in self.universe:
                 return {v}
+            if v in self.split and level == "outer":
+                return self.values_of(v)
         raise Unknown("pattern %s" % p)
 
 
@@ -89,6 +107,126 @@ class Flow:
             if n.get("s") == "Let" and n.get("pat", {}).get("p") == "Bind" and "init" in n:
                 self.lets[n["pat"]["lid"]] = n["init"]
         self.hits = []          # (node, set)
+        self.payload = {}       # local bound to the string payload of a split variant -> variant
+        for n in walk(f["body"]):
+            if isinstance(n, dict) and n.get("p") in ("TupleStruct", "Struct") and str(n.get("path", "")).split("::")[-1] in dom.split:
+                for q in walk(n.get("pats") or [x["pat"] for x in n.get("fields", [])]):
+                    if q.get("p") == "Bind":
+                        self.payload[q["lid"]] = str(n["path"]).split("::")[-1]
+        self.derived = {}       # local of the inner enum computed from the tracked value -> {value: set of inner variants}
+
+    def _payload_of(self, e):
+        """the split variant whose payload the string expression e is (v, v.as_str(), &**v ..)"""
+        n = 0
+        while isinstance(e, dict) and n < 8:
+            n += 1
+            k = e.get("k")
+            if k == "Path" and e.get("res") == "Local":
+                return self.payload.get(e.get("lid"))
+            if k == "MethodCall" and e.get("m") in ("as_str", "as_ref", "deref", "borrow", "clone", "to_string", "to_owned") and not e.get("args"):
+                e = e["recv"]
+            elif k in ("AddrOf", "Cast") or (k == "Unary" and e.get("op") == "*"):
+                e = e["a"]
+            else:
+                return None
+        return None
+
+    def _str_test(self, a, b, negated, S):
+        for x, y in ((a, b), (b, a)):
+            if isinstance(y, dict) and y.get("k") == "Lit" and y.get("t") == "str":
+                v = self._payload_of(x)
+                if v is not None:
+                    if y["v"] not in self.dom.split[v]:
+                        raise Unknown("payload of %s compared with %r, which is not one of the split literals" % (v, y["v"]))
+                    t = {"%s:%s" % (v, y["v"])}
+                    return (set(self.dom.universe) - t) if negated else t
+        return None
+
+    # -- values of the inner enum computed from the tracked value ----------------------------------------------------
+    def nat(self, S):
+        return {s: ({s} if s in self.dom.inner_vars else set()) for s in S}
+
+    def val(self, e, S):
+        """e has the inner enum's type: -> {value in S: set of inner variants e can be under it}, None when not computable"""
+        n = 0
+        while isinstance(e, dict) and n < 8:
+            n += 1
+            k = e.get("k")
+            if k in ("AddrOf", "Cast") or (k == "Unary" and e.get("op") == "*"):
+                e = e["a"]
+            elif k == "Block" and not e.get("stmts") and "expr" in e:
+                e = e["expr"]
+            elif k == "MethodCall" and e.get("m") in ("clone", "as_ref", "borrow", "deref") and not e.get("args"):
+                e = e["recv"]
+            else:
+                break
+        if not isinstance(e, dict):
+            return None
+        k = e.get("k")
+        if k == "Path" and e.get("res") == "Local":
+            if e.get("lid") in self.derived:
+                M = self.derived[e["lid"]]
+                return {s: set(M.get(s, ())) for s in S}
+            return self.nat(S) if self.dom.level(e.get("ty")) == "inner" else None
+        if k == "Path" and str(e.get("res", "")).startswith("Ctor") and str(e.get("path", "")).split("::")[-1] in self.dom.inner_vars:
+            return {s: {str(e["path"]).split("::")[-1]} for s in S}
+        if k == "If" and "else" in e:
+            c = self.cond(e["cond"])
+            a = self.val(e["then"], S if c is None else S & c)
+            b = self.val(e["else"], S if c is None else S - c)
+            if a is None or b is None:
+                return None
+            return {s: a.get(s, set()) | b.get(s, set()) for s in S}
+        if k == "Match" and e.get("src") == "Normal" and self.dom.level(e.get("scrutty")):
+            out = {s: set() for s in S}
+            for arm, Sa in self._arms(e, S):
+                m = self.val(arm["body"], Sa)
+                if m is None:
+                    return None
+                for s, vs in m.items():
+                    out[s] |= vs
+            return out
+        if k in ("Call", "MethodCall") and self.depth < 3:
+            t = e if k == "MethodCall" else e.get("f", {})
+            args = ([e.get("recv")] + e.get("args", [])) if k == "MethodCall" else e.get("args", [])
+            g = self.facts.fns.get(t.get("rid") or t.get("id"))
+            if g is not None and "body" in g and any(isinstance(a, dict) and self.dom.level(a.get("ty")) for a in args):
+                sub = Flow(self.dom, g, self.depth + 1)
+                sub.want = lambda n_: False
+                return sub.val(g["body"], S)
+        return None
+
+    def _arms(self, n, S):
+        """[(arm, values of S under which the arm is taken)] of a match over the tracked enum or over an inner value computed
+        from it"""
+        lv = self.dom.level(n["scrutty"])
+        out = []
+        if lv == "inner":
+            M = self.val(n["scrut"], S)
+            if M is None:
+                M = self.nat(S)
+            rest = set(S)
+            for arm in n["arms"]:
+                A = self.dom.pat_set(arm["pat"], "inner")
+                Sa = {s for s in rest if M.get(s, set()) & A}
+                out.append((arm, Sa))
+                if "guard" not in arm:
+                    rest -= {s for s in Sa if M.get(s, set()) <= A}
+            return out
+        rest = set(self.dom.universe)
+        for arm in n["arms"]:
+            a = self.dom.pat_set(arm["pat"], lv) & rest
+            if "guard" in arm:
+                g = self.cond(arm["guard"])
+                if g is None:
+                    out.append((arm, S & a))        # a guard about something else: the arm may or may not be taken
+                else:
+                    out.append((arm, S & a & g))
+                    rest -= (a & g)
+            else:
+                out.append((arm, S & a))
+                rest -= a
+        return out
 
     # -- conditions ------------------------------------------------------------------------------------------------
     def mentions(self, e):
@@ -123,18 +261,12 @@ class Flow:
                 return self.dom.pat_set(e["pat"], lv)
             return None
         if k == "Match" and self.dom.level(e.get("scrutty")):
-            lv = self.dom.level(e["scrutty"])
-            rest = set(U) if lv == "outer" else set(self.dom.inner_vars)
             out = set()
-            for arm in e["arms"]:
-                a = self.dom.pat_set(arm["pat"], lv) & rest
-                if "guard" in arm:
-                    raise Unknown("match guard over the tracked enum")
-                rest -= a
+            for arm, Sa in self._arms(e, U):
                 c = self.cond(arm["body"])
                 if c is None:
                     raise Unknown("arm of a boolean match over the tracked enum is not a constant")
-                out |= a & c
+                out |= Sa & c
             return out
         if k in ("Call", "MethodCall"):
             t = e if k == "MethodCall" else e.get("f", {})
@@ -152,6 +284,11 @@ class Flow:
             sub = Flow(self.dom, callee, self.depth + 1)
             return sub.cond(callee["body"])
         if k == "Binary" and e.get("op") in ("==", "!=", "Eq", "Ne"):
+            st = self._str_test(e["a"], e["b"], e.get("op") in ("!=", "Ne"), U)
+            if st is not None:
+                return st
+            if not self.mentions(e):
+                return None
             return self.eq_const(e)
         if k == "Block":
             # statements then a tail: only `let` of things we can look through
@@ -217,6 +354,10 @@ class Flow:
                 if "init" not in n:
                     return S
                 S = self.visit(n["init"], S)
+                if n.get("pat", {}).get("p") == "Bind" and self.dom.level(n["pat"].get("ty")) == "inner":
+                    M = self.val(n["init"], set(self.dom.universe))
+                    if M is not None:
+                        self.derived[n["pat"]["lid"]] = M
                 if "els" in n:
                     lv = self.dom.level(n["init"].get("ty"))
                     if lv:
@@ -261,16 +402,31 @@ class Flow:
                     self.visit(arm, S)
                 return S
             if self.dom.level(n.get("scrutty")) and src == "Normal":
-                lv = self.dom.level(n["scrutty"])
-                rest = set(self.dom.universe) if lv == "outer" else set(self.dom.inner_vars)
+                S = self.visit(n["scrut"], S)
                 out = set()
-                for arm in n["arms"]:
-                    a = self.dom.pat_set(arm["pat"], lv) & rest
+                for arm, Sa in self._arms(n, S):
                     if "guard" in arm:
-                        self.visit(arm["guard"], S & a)
+                        self.visit(arm["guard"], Sa)
+                    out |= self.visit(arm["body"], Sa)
+                return out
+            pv = self._payload_of(n["scrut"]) if src == "Normal" else None
+            if pv is not None and "str" in str(n.get("scrutty", "")):
+                # `match v.as_str() { "@" => .., _ => .. }` over the payload of a split variant
+                rest, out = set(self.dom.values_of(pv)), set()
+                other = set(self.dom.universe) - rest
+                for arm in n["arms"]:
+                    pat = arm["pat"]
+                    if pat.get("p") == "Expr" and pat["e"].get("t") == "str":
+                        if pat["e"]["v"] not in self.dom.split[pv]:
+                            raise Unknown("payload of %s matched against %r, which is not one of the split literals" % (pv, pat["e"]["v"]))
+                        a = {"%s:%s" % (pv, pat["e"]["v"])} & rest
+                    elif pat.get("p") in ("Wild", "Bind"):
+                        a = set(rest)
                     else:
+                        raise Unknown("pattern over the payload of %s" % pv)
+                    if "guard" not in arm:
                         rest -= a
-                    out |= self.visit(arm["body"], S & a)
+                    out |= self.visit(arm["body"], S & (a | other) if False else S & a)
                 return out
             S = self.visit(n["scrut"], S)
             out = set()
